@@ -40,7 +40,8 @@ pub enum Item {
     Memory,
     PassiveData,
     ActiveData,
-    /// api: 0 module iterator (append_to_tag), 1 function modifier (append_tag_at)
+    /// api: 0 module iterator (append_to_tag), 1 function modifier (append_tag_at); 2 / 3: the same two
+    /// with the tag attached right after the mode is selected, BEFORE the first instruction is injected
     Probe { mode: PMode, api: u8 },
     /// the same additions / probes WITHOUT a tag (must not produce a tagged record)
     UntaggedImportFunc,
@@ -188,7 +189,7 @@ fn apply<'a>(module: &mut Module<'a>, items: &[Item]) -> Vec<Expect> {
                     Operator::GlobalGet { global_index: 1 },
                     Operator::Drop,
                 ];
-                if api == 0 {
+                if api == 0 || api == 2 {
                     let mut iter = ModuleIterator::new(module, &vec![]);
                     loop {
                         if let (Location::Module { func_idx, instr_idx }, _) = iter.curr_loc() {
@@ -229,10 +230,13 @@ fn apply<'a>(module: &mut Module<'a>, items: &[Item]) -> Vec<Expect> {
                             iter.func_exit();
                         }
                     }
+                    if tagged && api == 2 {
+                        iter.append_to_tag(tag_of(k));
+                    }
                     for op in code {
                         iter.inject(op);
                     }
-                    if tagged {
+                    if tagged && api == 0 {
                         iter.append_to_tag(tag_of(k));
                     }
                     // function-level modes stay active on the function until a modifier resets them
@@ -273,10 +277,13 @@ fn apply<'a>(module: &mut Module<'a>, items: &[Item]) -> Vec<Expect> {
                             fm.func_exit();
                         }
                     }
+                    if tagged && api == 3 {
+                        fm.append_tag_at(tag_of(k), loc);
+                    }
                     for op in code {
                         fm.inject(op);
                     }
-                    if tagged {
+                    if tagged && api == 1 {
                         fm.append_tag_at(tag_of(k), loc);
                     }
                     fm.finish_instr();
@@ -346,7 +353,7 @@ fn flatten(kind: InjectType, inj: &Injection) -> Rec {
 
 fn item_class(i: &Item) -> String {
     match i {
-        Item::Probe { mode, api } => format!("probe.{:?}.{}", mode, ["iter", "modifier"][*api as usize]),
+        Item::Probe { mode, api } => format!("probe.{:?}.{}", mode, ["iter", "modifier", "iter-tag-first", "modifier-tag-first"][*api as usize]),
         other => format!("{:?}", other),
     }
 }
@@ -483,7 +490,7 @@ pub fn check(tier: Tier) -> i32 {
     let mut run = Run::new("C23", tier, "model_checking");
     let mut alphabet = vec![Item::Type, Item::ImportFunc, Item::ImportGlobal, Item::ImportMemory, Item::Export, Item::Func, Item::Global, Item::Memory, Item::PassiveData, Item::ActiveData, Item::UntaggedImportFunc, Item::UntaggedProbe, Item::TypeSameAsBase, Item::TypeAgainUntagged];
     for mode in [PMode::Before, PMode::BeforeFinalEnd, PMode::After, PMode::Alternate, PMode::SemanticAfterBlock, PMode::SemanticAfterBr, PMode::BlockEntry, PMode::BlockExit, PMode::BlockAlt, PMode::FuncEntry, PMode::FuncExit] {
-        for api in 0..2u8 {
+        for api in 0..4u8 {
             alphabet.push(Item::Probe { mode, api });
         }
     }
@@ -518,7 +525,7 @@ pub fn check(tier: Tier) -> i32 {
         frontier = next;
     }
     run.rule = format!(
-        "all histories of length <= {} over 36 operations: tagged additions of every kind (type, function/global/memory import, export, built function, global, memory, passive and active data), tagged probes of every mode (before - also on the function's final end -, after, alternate, semantic-after on a block and on a br, block-entry, block-exit, block-alt, function entry/exit) through the module iterator (append_to_tag) and the function modifier (append_tag_at), plus untagged additions and probes, a tagged request for a type the base already has and an untagged re-request of a tagged type, on a base that already has an item of every kind. Three replays per history: one calls pull_side_effects(), one encode(), one pull_side_effects() and then encode() (whose bytes must equal the second's). Oracle: for every tag exactly one record of the item's kind carries it (special-mode probes: at least one), with the item's content; a probe's / function's record body contains the item's code and refers to function $l1, memory $m0 and global $g0 by their indices in the ENCODED module; no non-empty tag appears that was never attached; no record describes a pre-existing item. Records with empty tags are tolerated.",
+        "all histories of length <= {} over 58 operations: tagged additions of every kind (type, function/global/memory import, export, built function, global, memory, passive and active data), tagged probes of every mode (before - also on the function's final end -, after, alternate, semantic-after on a block and on a br, block-entry, block-exit, block-alt, function entry/exit) through the module iterator (append_to_tag) and the function modifier (append_tag_at), each with the tag attached after the code and with the tag attached between the mode call and the first injected instruction, plus untagged additions and probes, a tagged request for a type the base already has and an untagged re-request of a tagged type, on a base that already has an item of every kind. Three replays per history: one calls pull_side_effects(), one encode(), one pull_side_effects() and then encode() (whose bytes must equal the second's). Oracle: for every tag exactly one record of the item's kind carries it (special-mode probes: at least one), with the item's content; a probe's / function's record body contains the item's code and refers to function $l1, memory $m0 and global $g0 by their indices in the ENCODED module; no non-empty tag appears that was never attached; no record describes a pre-existing item. Records with empty tags are tolerated.",
         depth
     );
     run.run_cases("tagged histories", &cases, run_case);
